@@ -56,6 +56,8 @@ pub fn ks_first_mismatch(id: u64, off: u64, data: &[u8]) -> Option<usize> {
 // ---------- shared session state ----------
 
 pub struct Shared {
+    /// origin of the session's timestamps
+    pub t0: Instant,
     pub abort: AtomicBool,
     pub timed_out: AtomicBool,
     pub progress: AtomicU64,
@@ -65,11 +67,15 @@ pub struct Shared {
 impl Shared {
     pub fn new(deadline: Instant) -> Shared {
         Shared {
+            t0: Instant::now(),
             abort: AtomicBool::new(false),
             timed_out: AtomicBool::new(false),
             progress: AtomicU64::new(0),
             deadline,
         }
+    }
+    pub fn now_us(&self) -> u64 {
+        self.t0.elapsed().as_micros() as u64
     }
     fn stop(&self) -> bool {
         if self.abort.load(Ordering::SeqCst) {
@@ -93,6 +99,27 @@ pub struct SideState {
     pub send_failed: AtomicBool,
     pub rst_now: AtomicBool,
     pub sent: AtomicU64,
+    /// harness-side timestamps (microseconds since Shared::t0): when this side started, its last
+    /// successful write() and the longest pause between two consecutive writes (the first one is
+    /// measured from the start of the side), the last byte received and the end-of-stream
+    pub started_us: AtomicU64,
+    pub first_write_us: AtomicU64,
+    pub last_write_us: AtomicU64,
+    pub max_write_gap_us: AtomicU64,
+    pub writes: AtomicU64,
+    pub last_byte_us: AtomicU64,
+    pub eos_us: AtomicU64,
+}
+
+impl SideState {
+    fn note_write(&self, sh: &Shared) {
+        let now = sh.now_us();
+        let last = self.last_write_us.swap(now, Ordering::SeqCst);
+        if self.writes.fetch_add(1, Ordering::SeqCst) == 0 {
+            self.first_write_us.store(now, Ordering::SeqCst);
+        }
+        self.max_write_gap_us.fetch_max(now.saturating_sub(last), Ordering::SeqCst);
+    }
 }
 
 // ---------- scripts ----------
@@ -342,6 +369,13 @@ pub struct SideReport {
     pub split_wait_timeouts: u64,
     pub local: Option<std::net::SocketAddr>,
     pub peer: Option<std::net::SocketAddr>,
+    /// number of successful write() calls, time from the first to the last one, longest pause
+    /// between two consecutive ones (the first measured from the start of the side)
+    pub writes: u64,
+    pub write_span_ms: u64,
+    pub max_write_gap_ms: u64,
+    /// time between the last byte received and the end-of-stream (when both were seen)
+    pub eos_after_last_byte_ms: Option<u64>,
 }
 
 impl SideReport {
@@ -369,6 +403,8 @@ impl SideReport {
             "send_error": self.send_err,
             "local": self.local.map(|a| a.to_string()),
             "peer": self.peer.map(|a| a.to_string()),
+            "writes": self.writes, "write_span_ms": self.write_span_ms, "max_write_gap_ms": self.max_write_gap_ms,
+            "eos_after_last_byte_ms": self.eos_after_last_byte_ms,
         })
     }
 }
@@ -386,7 +422,7 @@ fn wait_flag(flag: &AtomicBool, alt: Option<&AtomicBool>, sh: &Shared) -> bool {
 }
 
 /// write all of `data`; Err on connection error, Ok(false) when the session was aborted
-fn write_all(s: &mut TcpStream, data: &[u8], sh: &Shared) -> std::io::Result<bool> {
+fn write_all(s: &mut TcpStream, data: &[u8], sh: &Shared, st: &SideState) -> std::io::Result<bool> {
     let mut off = 0;
     while off < data.len() {
         if sh.stop() {
@@ -396,6 +432,7 @@ fn write_all(s: &mut TcpStream, data: &[u8], sh: &Shared) -> std::io::Result<boo
             Ok(0) => return Err(std::io::Error::new(ErrorKind::WriteZero, "write returned 0")),
             Ok(n) => {
                 off += n;
+                st.note_write(sh);
                 sh.progress.fetch_add(n as u64, Ordering::Relaxed);
             }
             Err(e) if matches!(e.kind(), ErrorKind::WouldBlock | ErrorKind::TimedOut | ErrorKind::Interrupted) => {}
@@ -463,7 +500,7 @@ fn run_writer(mut s: TcpStream, side: &Side, sh: &Shared, st: &SideState) -> Wri
             if p <= done || p >= pre.bytes.len() {
                 continue;
             }
-            match write_all(&mut s, &pre.bytes[done..p], sh) {
+            match write_all(&mut s, &pre.bytes[done..p], sh, st) {
                 Ok(true) => {}
                 Ok(false) => return out,
                 Err(e) => {
@@ -482,7 +519,7 @@ fn run_writer(mut s: TcpStream, side: &Side, sh: &Shared, st: &SideState) -> Wri
         if j > 0 && !side.wait_handshake_after_preamble {
             chunk.extend_from_slice(&ks_vec(side.send_id, 0, j));
         }
-        match write_all(&mut s, &chunk, sh) {
+        match write_all(&mut s, &chunk, sh, st) {
             Ok(true) => {}
             Ok(false) => return out,
             Err(e) => {
@@ -523,6 +560,7 @@ fn run_writer(mut s: TcpStream, side: &Side, sh: &Shared, st: &SideState) -> Wri
                 }
                 Ok(k) => {
                     done += k;
+                    st.note_write(sh);
                     st.sent.fetch_add(k as u64, Ordering::SeqCst);
                     sh.progress.fetch_add(k as u64, Ordering::Relaxed);
                 }
@@ -555,6 +593,8 @@ fn run_writer(mut s: TcpStream, side: &Side, sh: &Shared, st: &SideState) -> Wri
 /// run one side of the session on `stream` until it closes it
 pub fn run_side(stream: TcpStream, side: &Side, sh: &Shared) -> SideReport {
     let st = SideState::default();
+    st.started_us.store(sh.now_us(), Ordering::SeqCst);
+    st.last_write_us.store(sh.now_us(), Ordering::SeqCst);
     let local = stream.local_addr().ok();
     let peer = stream.peer_addr().ok();
     let mut recv = Receiver::new(side.recv_id, side.strip.clone());
@@ -598,6 +638,7 @@ pub fn run_side(stream: TcpStream, side: &Side, sh: &Shared) -> SideReport {
                     // timer paces every transfer through a shrunk socket buffer
                     let _ = socket2::SockRef::from(&rd).set_tcp_quickack(true);
                     st.first_byte_seen.store(true, Ordering::SeqCst);
+                    st.last_byte_us.store(sh.now_us(), Ordering::SeqCst);
                     sh.progress.fetch_add(n as u64, Ordering::Relaxed);
                     recv.feed(&buf[..n]);
                     if side.strip == StripMode::HttpHead && recv.preamble_done() {
@@ -618,6 +659,7 @@ pub fn run_side(stream: TcpStream, side: &Side, sh: &Shared) -> SideReport {
             }
         }
         if matches!(end, End::Eof | End::Reset(_)) {
+            st.eos_us.store(sh.now_us(), Ordering::SeqCst);
             st.eos_seen.store(true, Ordering::SeqCst);
         }
         if let Some(w) = writer {
@@ -637,6 +679,13 @@ pub fn run_side(stream: TcpStream, side: &Side, sh: &Shared) -> SideReport {
         split_wait_timeouts: wout.split_wait_timeouts,
         local,
         peer,
+        writes: st.writes.load(Ordering::SeqCst),
+        write_span_ms: if st.writes.load(Ordering::SeqCst) == 0 { 0 } else { st.last_write_us.load(Ordering::SeqCst).saturating_sub(st.first_write_us.load(Ordering::SeqCst)) / 1000 },
+        max_write_gap_ms: st.max_write_gap_us.load(Ordering::SeqCst) / 1000,
+        eos_after_last_byte_ms: match (st.last_byte_us.load(Ordering::SeqCst), st.eos_us.load(Ordering::SeqCst)) {
+            (b, e) if b > 0 && e >= b => Some((e - b) / 1000),
+            _ => None,
+        },
     }
 }
 
